@@ -48,7 +48,8 @@ vars == <<c, cfg, term, calls, plan, xs, pcall, open, pf, rets, dang0>>
 StatusFields == [amount |-> <<1>>, trace |-> <<9, 7, 5>>, date |-> <<4, 5>>, time |-> <<1, 2, 3>>, terminal_id |-> <<5, 2, 5, 2, 3, 5, 3, 5>>]
 CodeClasses == {252, 183, 1}       \* device missing (-> PIN), a known code, a code outside the table
 Outcomes(seq, isQuery) ==
-  CASE seq = "Reservation" -> {[o |-> "ok"], [o |-> "ok", early_status |-> TRUE], [o |-> "noreceipt", open |-> FALSE], [o |-> "noreceipt", open |-> TRUE]}
+  CASE seq = "Reservation" -> {[o |-> "ok"], [o |-> "ok", early_status |-> TRUE], [o |-> "ok", late_status |-> TRUE], [o |-> "ok", two_receipts |-> TRUE],
+                               [o |-> "noreceipt", open |-> FALSE], [o |-> "noreceipt", open |-> TRUE]}
                               \cup {[o |-> "abort", code |-> k] : k \in CodeClasses}
     [] seq = "PartialReversal" /\ isQuery -> {[o |-> "pending"], [o |-> "pending", receipt |-> 65535, code |-> 183]}
     [] seq = "PartialReversal" -> {[o |-> "ok", status |-> StatusFields], [o |-> "ok_nostatus"], [o |-> "abort", code |-> 183]}
@@ -76,9 +77,15 @@ Answer(t, rq, o) ==
          ELSE IF o.o = "noreceipt"
               THEN [replies |-> <<Rp("StatusInformation", StatusVal(<<>>, NoF)), Completion>>,
                     term |-> IF o.open THEN [t EXCEPT !.open = @ \cup {t.next}, !.next = @ + 1] ELSE t]
-              ELSE [replies |-> (IF "early_status" \in DOMAIN o THEN <<Rp("StatusInformation", StatusVal(<<>>, NoF))>> ELSE <<>>)
-                                \o <<Rp("StatusInformation", StatusVal(<<D(t.next)>>, NoF)), Completion>>,
-                    term |-> [t EXCEPT !.open = @ \cup {t.next}, !.known = @ \cup {t.next}, !.next = @ + 1]]
+              ELSE \* the reservation is booked under receipt t.next; a superseded number (t.next + 1) may be shown first,
+                   \* a status without the number may come before or after
+                   [replies |-> (IF "early_status" \in DOMAIN o THEN <<Rp("StatusInformation", StatusVal(<<>>, NoF))>> ELSE <<>>)
+                                \o (IF "two_receipts" \in DOMAIN o THEN <<Rp("StatusInformation", StatusVal(<<D(t.next + 1)>>, NoF))>> ELSE <<>>)
+                                \o <<Rp("StatusInformation", StatusVal(<<D(t.next)>>, NoF))>>
+                                \o (IF "late_status" \in DOMAIN o THEN <<Rp("StatusInformation", StatusVal(<<>>, NoF))>> ELSE <<>>)
+                                \o <<Completion>>,
+                    term |-> [t EXCEPT !.open = @ \cup {t.next}, !.known = @ \cup {t.next},
+                                       !.next = IF "two_receipts" \in DOMAIN o THEN @ + 2 ELSE @ + 1]]
     [] rq.seq = "PartialReversal" /\ rq.val.receipt_no = <<D65535>> ->
          LET dang == t.open \ t.known
              rn == IF "receipt" \in DOMAIN o THEN <<D(o.receipt)>>
